@@ -174,11 +174,20 @@ Definition w_fill (s : str) : hwrite := map (fun _ => s).
 Definition w_append1 (s : str) : hwrite :=
   fun l => match l with x :: _ :: r => x :: s :: r | _ => l end.
 
+(** What [Router.Serve] does to the route position when it returns Miss:
+    the deployed wrapper puts back the position the router was ENTERED with;
+    [UndoOwnShift] (seeded change C20-i) calls [ShiftRoute(-shift)] with the
+    length of its own match, which leaves in the context whatever the handler
+    itself shifted. *)
+Inductive restore_kind := RestoreEntry | UndoOwnShift.
+
 Section SeqW.
   Variables (disp meth : rcond).
   Variable le : list (N * N).
   Variable acc : acc_kind.
   Variable lw : N -> option hwrite.       (* what handler [h] writes to the RelRoute it was handed *)
+  Variable lsh : N -> nat.                (* [c.ShiftRoute(k)] a leaf handler calls before it returns *)
+  Variable rk : restore_kind.
 
   (** [serve_ctx] with handlers that write: a leaf writes and returns; a
       handler that is another router writes and then delegates. *)
@@ -192,7 +201,7 @@ Section SeqW.
             let go h c' :=
               let c'' := apply_write acc (lw h) c' in
               if (1000 <=? h)%N then serve_ctx_w w k rs (N.to_nat (h - 1000)) c''
-              else ((Z.of_N h, rel c', leaf_res le h), c'') in
+              else ((Z.of_N h, rel c', leaf_res le h), shift c'' (lsh h)) in
             let body :=
               match router_serve_with disp meth r c with
               | OIndex h c' => go h c'
@@ -205,7 +214,13 @@ Section SeqW.
               end in
             match w with
             | RWRestoreOnMiss =>
-                if is_miss (fst body) then (fst body, set_pos (snd body) (c_pos c)) else body
+                if is_miss (fst body) then
+                  (fst body,
+                   match rk with
+                   | RestoreEntry => set_pos (snd body) (c_pos c)
+                   | UndoOwnShift => set_pos (snd body) (c_pos (snd body) - (c_pos (miss_ctx r c) - c_pos c))
+                   end)
+                else body
             | RWPlain => body
             | RWUnknown _ => (r_stuck, c)
             end
